@@ -17,16 +17,16 @@ Definition inside_canary_ok : peptide := mkPep (30#1) 0 (1#1) 0 (3#4) 0 0 1 1 (S
 
 Definition rule_conf : rule := mkRule LConf (fun _ _ => true).
 Definition rule_crit : rule := mkRule LCrit (fun _ _ => true).
-Definition g0 : cfg := mkCfg [rule_crit] 100 10 10 (2#1) (1#2).
-Definition g_norules : cfg := mkCfg [] 100 10 10 (2#1) (1#2).
+Definition g0 : cfg := mkCfg [rule_crit] 100 10 10 (2#1) (1#2) 1000.
+Definition g_norules : cfg := mkCfg [] 100 10 10 (2#1) (1#2) 1000.
 
 Definition watcher : tcell := fresh_tcell prof0 3 5.
-Definition s_plain : sys := mkSys (Some watcher) [] (Some (mkRec 0 0)).
-Definition s_flagged : sys := mkSys (Some (tcell_flag watcher true)) [] (Some (mkRec 0 0)).
-Definition remembered_slow : msig := mkSig 0 1 1 LConf AIsolate.
-Definition s_memory : sys := mkSys (Some watcher) [remembered_slow] (Some (mkRec 0 0)).
+Definition s_plain : sys := mkSys (Some watcher) [] (Some (mkRec 0 0)) 0 0.
+Definition s_flagged : sys := mkSys (Some (tcell_flag watcher true)) [] (Some (mkRec 0 0)) 0 0.
+Definition remembered_slow : msig := mkSig 0 1 1 LConf AIsolate 0 0.
+Definition s_memory : sys := mkSys (Some watcher) [remembered_slow] (Some (mkRec 0 0)) 0 0.
 Definition anergic_watcher : tcell := mkT prof0 3 5 2 5 true S1NonSelf S2None.
-Definition s_anergic : sys := mkSys (Some anergic_watcher) [remembered_slow] (Some (mkRec 0 0)).
+Definition s_anergic : sys := mkSys (Some anergic_watcher) [remembered_slow] (Some (mkRec 0 0)) 0 0.
 
 (* c17_two_signals is not vacuous: manual flag + one violation -> CONFIRMED / ISOLATE *)
 Example ex_two_signals_manual :
@@ -59,7 +59,7 @@ Proof. vm_compute. auto. Qed.
 (* inside the baseline with a manual flag, a remembered threat with the same
    hashes and a long anomaly count: NONE / IGNORE *)
 Example ex_inside_baseline :
-  let s := mkSys (Some (mkT prof0 3 5 7 0 true S1NonSelf S2Repeat)) [remembered_slow] (Some (mkRec 0 0)) in
+  let s := mkSys (Some (mkT prof0 3 5 7 0 true S1NonSelf S2Repeat)) [remembered_slow] (Some (mkRec 0 0)) 0 0 in
   check prof0 inside = [] /\
   exists s', sys_step id_rnd false g0 s (OInspect (Some inside))
              = (s', OutResp (mkResp LNone AIgnore S1Self S2Manual [] false)
@@ -123,7 +123,7 @@ Qed.
 (* a negative tolerance inverts the bounds: training "succeeds" and the window
    is then reported anomalous — why the theorem needs 0 <= tolerance *)
 Example ex_negative_tolerance :
-  let g := mkCfg [] 100 10 10 (-1#1) (1#2) in
+  let g := mkCfg [] 100 10 10 (-1#1) (1#2) 1000 in
   exists s1, sys_step id_rnd false g s_plain (OTrain (Some window)) = (s1, OutTrain Positive) /\
              exists s2 r sp, sys_step id_rnd false g s1 (OInspect (Some window)) = (s2, OutResp r sp) /\
                              r_level r = LSusp /\ r_viol r = [1; 2; 3].
@@ -193,7 +193,7 @@ Example ex_current_window :
   map (fun x => match x with
                 | (d, _, AInspect, OutResp r _) => (d_obs d, level_code (r_level r))
                 | (d, _, _, _) => (d_obs d, -1) end)
-      (api_run pf_demo id_rnd false g_norules (mkDisp 2 2 [] []) (mkSys None [] (Some (mkRec 0 0))) hist)
+      (api_run pf_demo id_rnd false g_norules (mkDisp 2 2 [] []) (mkSys None [] (Some (mkRec 0 0)) 0 0) hist)
   = [([], -1); ([0], -1); ([0; 0], -1); ([0; 0], -1); ([0; 1], -1); ([0; 1], 2);
      ([0; 1], -1); ([1; 0], -1); ([0; 0], 0)] /\
   lastn 2 (recorded [] (firstn 8 hist)) = [0; 0].
@@ -205,3 +205,32 @@ Example ex_recall_not_lowered_again :
   map (fun x => match snd x with OutResp r _ => (level_code (r_level r), action_code (r_action r), r_viol r) | _ => (-1, -1, []) end) tr
   = [(2, 1, [2]); (2, 1, [9])] /\ mem_ok (s_mem s_flagged).
 Proof. split; [vm_compute; reflexivity|constructor]. Qed.
+
+(* the maintenance scenario: a threat is confirmed and stored at time 0; a day
+   later prune_old(1 hour) removes it and a feed about another agent is imported;
+   the same pattern, seen once, with the flag cleared: SUSPICIOUS, not recalled *)
+Example ex_forgotten_threat :
+  let feed := [mkSig 1 7 7 LConf AIsolate 80000 0] in
+  let tr := run id_rnd false g_norules s_flagged
+              [OInspect (Some slow); OReset; OAdvance 86400; OPruneOld 3600; OImport feed; OInspect (Some slow)] in
+  map (fun x => match snd x with OutResp r _ => (level_code (r_level r), r_viol r) | _ => (-1, []) end) tr
+  = [(2, [2]); (-1, []); (-1, []); (-1, []); (-1, []); (1, [2])] /\
+  map m_agent (s_mem (final id_rnd false g_norules s_flagged
+              [OInspect (Some slow); OReset; OAdvance 86400; OPruneOld 3600; OImport feed])) = [1].
+Proof. vm_compute. auto. Qed.
+
+(* without the pruning the threat is remembered and recalled *)
+Example ex_remembered_threat :
+  let tr := run id_rnd false g_norules s_flagged [OInspect (Some slow); OReset; OAdvance 86400; OInspect (Some slow)] in
+  map (fun x => match snd x with OutResp r _ => (level_code (r_level r), r_viol r) | _ => (-1, []) end) tr
+  = [(2, [2]); (-1, []); (-1, []); (2, [9])].
+Proof. vm_compute. reflexivity. Qed.
+
+(* capacity pruning drops the least recently accessed signature: with capacity 2,
+   touching the first makes the second the victim of the next store *)
+Example ex_capacity :
+  let g := mkCfg [] 100 10 10 (2#1) (1#2) 2 in
+  map m_vh (s_mem (final id_rnd false g s_plain
+     [OStore (mkSig 0 1 1 LConf AIsolate 0 0); OAdvance 1; OStore (mkSig 0 2 2 LConf AIsolate 0 0);
+      OAdvance 1; OTouch 0 1 1; OAdvance 1; OStore (mkSig 0 3 3 LConf AIsolate 0 0)])) = [1; 3].
+Proof. vm_compute. reflexivity. Qed.
